@@ -32,6 +32,12 @@ def random_valid(ctx, n):
             start, stop = (int(start) if float(start).is_integer() else start), (int(stop) if float(stop).is_integer() else stop)
         cases.append({"fn": "grid", "kind": kind, "s": repr(start), "e": repr(stop), "n": repr(npts), "values": [start, stop, npts],
                       "must_reject": False, "must_accept": False, "nval": npts, "tol": TOL, "label": "seeded valid specification"})
+        # every log specification is also materialised as a linear grid with the very same (start, stop, n_points), and vice
+        # versa where the bounds allow it, back to back in the same process: the two classes must not share anything
+        if kind == "log" and npts >= 3 and len(cases) < n:
+            cases.append({**cases[-1], "kind": "lin", "label": "same bounds as the preceding log grid"})
+        elif kind == "lin" and start > 0 and npts >= 3 and (stop / start) ** (1.0 / (npts - 1)) >= 1 + 1 / 512 and len(cases) < n:
+            cases.append({**cases[-1], "kind": "log", "label": "same bounds as the preceding linear grid"})
     return cases
 
 
